@@ -92,6 +92,17 @@ fn frame_of(ev: Ev, body_offset: usize) -> Option<AMQPFrame> {
                 2 => Channel(channel::AMQPMethod::Open(channel::Open { out_of_band: "".into() })),
                 3 => Queue(queue::AMQPMethod::Declare(queue::Declare { ticket: 0, queue: "q".into(), passive: false, durable: false, exclusive: false, auto_delete: false, nowait: false, arguments: Default::default() })),
                 4 => Confirm(confirm::AMQPMethod::Select(confirm::Select { nowait: false })),
+                // long texts of multi-byte characters (the exception text quotes the frame and has
+                // to fit a shortstr): 2-, 3- and 4-byte characters at both parities of the offset
+                6 => Basic(basic::AMQPMethod::Publish(basic::Publish { ticket: 0, exchange: "é".repeat(120), routing_key: "k".into(), mandatory: false, immediate: false })),
+                7 => Basic(basic::AMQPMethod::Publish(basic::Publish { ticket: 0, exchange: format!("x{}", "é".repeat(120)), routing_key: "k".into(), mandatory: false, immediate: false })),
+                8 => Basic(basic::AMQPMethod::Publish(basic::Publish { ticket: 0, exchange: "€".repeat(80), routing_key: "ключ".repeat(10), mandatory: false, immediate: false })),
+                9 => Basic(basic::AMQPMethod::Publish(basic::Publish { ticket: 0, exchange: format!("xy{}", "€".repeat(80)), routing_key: "🐇".repeat(20), mandatory: false, immediate: false })),
+                10 => Basic(basic::AMQPMethod::Publish(basic::Publish { ticket: 0, exchange: format!("x{}", "€".repeat(80)), routing_key: "k".into(), mandatory: false, immediate: false })),
+                11 => Queue(queue::AMQPMethod::Declare(queue::Declare { ticket: 0, queue: "🐇".repeat(60), passive: false, durable: false, exclusive: false, auto_delete: false, nowait: false, arguments: Default::default() })),
+                12 => Queue(queue::AMQPMethod::Declare(queue::Declare { ticket: 0, queue: format!("a{}", "🐇".repeat(60)), passive: false, durable: false, exclusive: false, auto_delete: false, nowait: false, arguments: Default::default() })),
+                13 => Queue(queue::AMQPMethod::Declare(queue::Declare { ticket: 0, queue: format!("ab{}", "🐇".repeat(60)), passive: false, durable: false, exclusive: false, auto_delete: false, nowait: false, arguments: Default::default() })),
+                14 => Queue(queue::AMQPMethod::Declare(queue::Declare { ticket: 0, queue: format!("abc{}", "🐇".repeat(60)), passive: false, durable: false, exclusive: false, auto_delete: false, nowait: false, arguments: Default::default() })),
                 _ => Connection(connection::AMQPMethod::Tune(connection::Tune { channel_max: 1, frame_max: 4096, heartbeat: 1 })),
             },
         ),
@@ -943,6 +954,9 @@ fn alphabet(mode: Mode, rf: &RefConn, thorough: bool) -> Vec<Ev> {
             v.push(Ev::Heartbeat(0));
             v.push(Ev::ProtoHeader);
             v.push(Ev::Blocked);
+            for k in 6..=14u8 {
+                v.push(Ev::ClientOnly(1, k));
+            }
             if thorough {
                 for k in 1..=5u8 {
                     v.push(Ev::ClientOnly(1, k));
